@@ -256,7 +256,13 @@ def run(chk, replay=None):
     hists = printed_json(r, "HISTORY")
     if not hists:
         raise Infra("no history generated")
-    d = isolated(chk, "replay of call histories of the *_simple functions", drive_hist, (hists,), timeout=900)
+    # directed histories of the two functions whose thread-local table is keyed by (m, divisor, bound / overhead): a long random walk over
+    # a small key space visits (almost) every ordered triple of keys, i.e. every way a stale key component can be left behind
+    rngd = random.Random(chk.seed * 5 + 1)
+    for f in ("reim_to_znx64_simple", "cplx_to_tnx32_simple"):
+        keys = [{"f": f, "m": mm, "div": dd, "ovh": oo} for mm in (3, 4) for dd in (0, 2) for oo in (0, 1, 2, 5)]
+        hists.append([dict(rngd.choice(keys)) for _ in range(1500 if quick else 12000)])
+    d = isolated(chk, "replay of call histories of the *_simple functions", drive_hist, (hists,), timeout=1800)
     events = d["events"] if d else []
     chk.cov["history_calls"] = d["calls"] if d else 0
     chk.cov["logical_calls"] = d["logical"] if d else 0
